@@ -151,36 +151,49 @@ inductive Step where
   | emit (t : LItem) (m : Mode) (s : LexSt)    -- the byte is consumed and completes a token
   | stop (e : LexErr)                          -- a diagnostic: lexing stops
 
+/-- What `readToken()` decides on the look-ahead when no token is in progress - a function of the
+    byte alone. -/
+inductive Act where
+  | newline                                   -- white space '\n': next line
+  | go (m : Mode)                             -- consume, continue in mode m
+  | emit (t : Tok) (h : t ≠ .NUMBER)          -- a one-character token (or the END_OF_FILE of a 0xFF byte)
+  | bad                                       -- "unexpected character"
+
+def startAct (c : Byte) : Act :=
+  if isSpace c then (if c = 10 then .newline else .go .start)
+  else if c = 124 then .go .comment                                     -- '|'
+  else if isAlpha c then .go (.ident [c])
+  else if isDigit c then .go (.dec [c])
+  else if c = 35 then .go (.hex [])                                     -- '#'
+  else if c = 91 then .emit .LBRACKET (by decide)
+  else if c = 93 then .emit .RBRACKET (by decide)
+  else if c = 40 then .emit .LPAREN (by decide)
+  else if c = 41 then .emit .RPAREN (by decide)
+  else if c = 123 then .emit .BEGIN (by decide)
+  else if c = 125 then .emit .END (by decide)
+  else if c = 59 then .emit .SEMICOLON (by decide)
+  else if c = 44 then .emit .COMMA (by decide)
+  else if c = 43 then .emit .PLUS (by decide)
+  else if c = 45 then .emit .MINUS (by decide)
+  else if c = 61 then .emit .EQ (by decide)
+  else if c = 60 then .go .lt
+  else if c = 62 then .go .gt
+  else if c = 126 then .go .tilde
+  else if c = 58 then .go .colon
+  else if c = 39 then .go .chr0
+  else if c = 34 then .go (.str [])
+  else if c = 255 then .emit .END_OF_FILE (by decide)                   -- (char)0xFF == EOF, lexing continues
+  else .bad
+
 /-- Dispatch of `readToken()` on the look-ahead `c` when no token is in progress.
     `s.col` already counts the read that fetched `c`. -/
 def startStep (c : Byte) (s : LexSt) : Step :=
   let adv : LexSt := { s with col := s.col + 1 }
-  if isSpace c then
-    if c = 10 then .go .start { s with line := s.line + 1, col := 1 }
-    else .go .start adv
-  else if c = 124 then .go .comment adv                                 -- '|'
-  else if isAlpha c then .go (.ident [c]) adv
-  else if isDigit c then .go (.dec [c]) adv
-  else if c = 35 then .go (.hex []) adv                                 -- '#'
-  else if c = 91 then .emit (mk .LBRACKET s adv.col) .start adv
-  else if c = 93 then .emit (mk .RBRACKET s adv.col) .start adv
-  else if c = 40 then .emit (mk .LPAREN s adv.col) .start adv
-  else if c = 41 then .emit (mk .RPAREN s adv.col) .start adv
-  else if c = 123 then .emit (mk .BEGIN s adv.col) .start adv
-  else if c = 125 then .emit (mk .END s adv.col) .start adv
-  else if c = 59 then .emit (mk .SEMICOLON s adv.col) .start adv
-  else if c = 44 then .emit (mk .COMMA s adv.col) .start adv
-  else if c = 43 then .emit (mk .PLUS s adv.col) .start adv
-  else if c = 45 then .emit (mk .MINUS s adv.col) .start adv
-  else if c = 61 then .emit (mk .EQ s adv.col) .start adv
-  else if c = 60 then .go .lt adv
-  else if c = 62 then .go .gt adv
-  else if c = 126 then .go .tilde adv
-  else if c = 58 then .go .colon adv
-  else if c = 39 then .go .chr0 adv
-  else if c = 34 then .go (.str []) adv
-  else if c = 255 then .emit (mk .END_OF_FILE s adv.col) .start adv      -- (char)0xFF == EOF, lexing continues
-  else .stop (errAt .token s s.col)                                      -- unexpected character
+  match startAct c with
+  | .newline => .go .start { s with line := s.line + 1, col := 1 }
+  | .go m => .go m adv
+  | .emit t _ => .emit (mk t s adv.col) .start adv
+  | .bad => .stop (errAt .token s s.col)
 
 /-- One byte in mode `m`: the token a look-ahead that does not belong to it completes (at most
     one), and what happens to the byte itself. -/
@@ -272,6 +285,11 @@ def lexGo : List Byte → Mode → LexSt → List LItem
     the END_OF_FILE of the real end of input or the first diagnostic. -/
 def lexAll (src : List Byte) : List LItem := lexGo src .start {}
 
+/-- The same with an explicit value for `Lexer::value`, the member the C++ constructor leaves
+    uninitialised (`identifier` and `string` are `std::string`s, `lastChar`/`lastToken` are written by
+    `loadBuffer`/`getNextToken` before they are read).  `lexAll = lexAllJ 0`. -/
+def lexAllJ (junk : Word) (src : List Byte) : List LItem := lexGo src .start { value := junk }
+
 /-! ### `emitTokens` (`xcmp --tokens`) -/
 
 def natDigits (n : Nat) : List Byte := (Nat.toDigits 10 n).map fun ch => BitVec.ofNat 8 ch.toNat
@@ -296,5 +314,6 @@ def emitTokens : List LItem → List Byte → Except LexErr (List Byte)
     if t.tok = .END_OF_FILE then .ok (acc ++ tokenLine t) else emitTokens rest (acc ++ tokenLine t)
 
 def tokensOutput (src : List Byte) : Except LexErr (List Byte) := emitTokens (lexAll src) []
+def tokensOutputJ (junk : Word) (src : List Byte) : Except LexErr (List Byte) := emitTokens (lexAllJ junk src) []
 
 end Hex.Xcmp
